@@ -1,6 +1,6 @@
 # C03 - a cluster write honours the requested consistency level.
 # spec: specs/clusterwrite (ClusterWrite, ClusterWriteGen); harness: harness/coordinator
-import json, random
+import json
 from vcheck import Infra, log
 
 PKG = "coordinator"
@@ -18,12 +18,16 @@ def consts(**kw):
 
 def run(ctx):
     sd = ctx.spec_dir("clusterwrite")
-    timeout_ms = ctx.pick(3, 10)
-    workers = 8
+    timeout_ms = ctx.pick(3, 8)
+    workers = 16
+    # The test binary of package coordinator binds a fixed port in an init function (pool_test.go): run it in its
+    # own network namespace so that concurrent checks on the same package do not kill each other.  A small
+    # GOMAXPROCS keeps the stop-the-world goroutine dumps cheap on an oversubscribed machine.
+    goenv = {"GOFLAGS": "-mod=mod -exec=/verif/lib/netns_exec.sh", "GOMAXPROCS": "4"}
 
     def replay(behs, label):
         p = ctx.write_json("paths-%s.json" % label, {"behaviours": behs, "timeout_ms": timeout_ms, "workers": workers})
-        return ctx.go_test(PKG, FILES, "^%s$" % TEST, env={"VERIF_IN": p}, timeout=1500, label=label)
+        return ctx.go_test(PKG, FILES, "^%s$" % TEST, env=dict(goenv, VERIF_IN=p), timeout=1500, label=label)
 
     def confirm(rp):
         recs, out, rc = replay([rp["behaviour"]], "confirm")
@@ -54,25 +58,23 @@ def run(ctx):
             raise Infra("vacuity: %s is not reachable in the model" % probe)
 
     # 2. every maximal path of the model -> the real PointsWriter
-    behs = []
-    ctx.write_cfg(sd, "G12.cfg", "GSpec", consts(GenN=[1, 2], GenHang=True), extra="INVARIANT Emit")
-    behs += ctx.tlc_generate(sd, "ClusterWriteGen", "G12.cfg", exhaustive=True, timeout=600)
+    #    quick: all paths with one or two owners; with three owners one coordinator position chosen by the seed
+    #    (no hanging remotes, queues looked at).  thorough: everything.
+    def gen(label, **kw):
+        ctx.write_cfg(sd, "G%s.cfg" % label, "GSpec", consts(**kw), extra="INVARIANT Emit")
+        return ctx.tlc_generate(sd, "ClusterWriteGen", "G%s.cfg" % label, exhaustive=True, timeout=900, workers=4)
+    behs = gen("12", GenN=[1, 2], GenCoord=[0, 1, 2], GenHang=True)
     n12 = len(behs)
-    ctx.write_cfg(sd, "G3.cfg", "GSpec", consts(GenN=[3], GenHang=True, OOO=[False]), extra="INVARIANT Emit")
-    b3 = ctx.tlc_generate(sd, "ClusterWriteGen", "G3.cfg", exhaustive=True, timeout=900, workers=4)
-    ctx.write_cfg(sd, "G3o.cfg", "GSpec", consts(GenN=[3], GenHang=True, OOO=[True]), extra="INVARIANT Emit")
-    b3 += ctx.tlc_generate(sd, "ClusterWriteGen", "G3o.cfg", exhaustive=True, timeout=900, workers=4)
-    n3 = len(b3)
-    exhaustive = True
     if ctx.quick():
-        # quick tier: all paths with one or two owners, a seeded sample of the three-owner paths
-        k = 20000
-        if len(b3) > k:
-            random.Random(ctx.seed).shuffle(b3)
-            b3 = b3[:k]
-            exhaustive = False
+        b3 = gen("3q", GenN=[3], GenCoord=[ctx.seed % 4], GenHang=False, OOO=[False])
+        exhaustive = False
+    else:
+        b3 = gen("3", GenN=[3], GenCoord=[0, 1, 2, 3], GenHang=True, OOO=[False])
+        b3 += gen("3o", GenN=[3], GenCoord=[0, 1, 2, 3], GenHang=True, OOO=[True])
+        exhaustive = True
+    n3 = len(b3)
     behs += b3
-    log("paths: %d with 1-2 owners, %d of %d with 3 owners" % (n12, len(b3), n3))
+    log("paths: %d with 1-2 owners, %d with 3 owners%s" % (n12, n3, "" if exhaustive else " (coordinator position %d)" % (ctx.seed % 4)))
     recs, out, rc = replay(behs, "replay")
     done = ctx.process(recs, out, rc, TEST, confirm)
     ctx.cov["traces_validated_against_impl"] += done.get("behaviours", 0)
@@ -80,7 +82,7 @@ def run(ctx):
     extra = {"replayed_behaviours": done.get("behaviours", 0), "replayed_steps": done.get("steps", 0),
              "paths_total": n12 + n3, "paths_held": done.get("held", 0),
              "timeout_paths": done.get("timeout_paths", 0),
-             "timeout_paths_prefix_sent_before_return": done.get("timeout_paths_prefix_sent_before_return", 0),
+             "timeout_paths_prefix_consumed_before_return": done.get("timeout_paths_prefix_consumed_before_return", 0),
              "mismatch_signatures": done.get("signatures", {})}
     return ctx.finish("model_checking", extra, assumptions=[
         "collaborators (TSDBStore, ShardWriter, HintedHandoff, MetaClient) are scripted: 'stored' means the collaborator returned nil",
